@@ -367,10 +367,16 @@ func (d *Demuxer) parseExtended(payload []byte) error {
 			}
 			d.xmpData = c.Data
 		case FourCCANIM:
-			if err := d.parseANIM(c.Data); err != nil {
-				return err
+			// Ignored unless the VP8X animation flag is set (container spec).
+			if d.features.HasAnimation {
+				if err := d.parseANIM(c.Data); err != nil {
+					return err
+				}
 			}
 		case FourCCANMF:
+			if !d.features.HasAnimation {
+				return fmt.Errorf("%w: ANMF chunk in a file without the animation flag", ErrInvalidANMF)
+			}
 			if err := d.parseANMF(c.Data); err != nil {
 				return err
 			}
